@@ -94,6 +94,9 @@ func runDirectedBatch(b *harness.B) {
 	}
 	c.runValues(b.Pick(6, 60))
 
+	// observed only (outside the property's domain): specifiers that are not valid UTF-8
+	observeNonUTF8Specifiers(b, c)
+
 	// 3. the smallest update shapes (so that the first witness is minimal)
 	runShapes(b)
 	b.Sample(map[string]any{"kind": "registry", "entries": len(Registry()), "forms": nForms, "source_declarations": len(declared), "repo": repo})
